@@ -353,8 +353,8 @@ func (x *Exec) applyContractD(st *State, pk *Pkg, d calleeDesc, fc *FuncContract
 		}
 	}
 	for _, c := range fc.Ensures {
-		if strings.Contains(c.Text, "ucall(") {
-			// speaks about the results of the callee's own calls of unknown callees: nothing a caller can observe
+		if strings.Contains(c.Text, "ucall(") || strings.Contains(c.Text, "callres(") || strings.Contains(c.Text, "callReported(") || strings.Contains(c.Text, "local(") {
+			// speaks about the callee's own calls and locals: nothing a caller can observe
 			continue
 		}
 		t := x.evalClauseOf(env, c, fc)
